@@ -88,7 +88,7 @@ ADDENDA = {
  "C13": " Every prefix of three token-rich texts is loaded and abandoned (stopping the lexer inside escapes, exponents, multi-rune operators, comment openers) before 18 rich probes. Thorough repeats the quick case list in race-detector workers (the parser runs in an iter.Pull coroutine).",
  "C14": " (str h) and (json h) must be exactly those of a hash built afresh from the model's content. Hashes referenced from two places, views (keys, hpair, ranges) that must not alias the hash, eight copy scenarios followed by deletes in the original. 60 histories store values of every kind (nil, empty string, zero, false, empty containers, chars, floats) under symbol, string and integer keys, judged under every view including the one-variable go-style range.",
  "C15": " Thirteen macro shapes (three whose expansion breaks / continues out of the caller's loop) at seven kinds of call site, including below let+newScope inside a loop with the names read again afterwards. Ten fixed template/macro expectations (self call inside an unquote or splice, duplicated and reordered argument effects), macros written in Go (AddMacro) in operand, let, function-body and loop position, 1500 failing expansions followed by ordinary macro use in the same and a fresh interpreter.",
- "C16": " 28 lazy-versus-strict twin programs (apply/map binding non-self-evaluating values to lazy formals; argument variables re-bound in the forcing frame) must behave like the same program with strict formals. Dot-path arguments of strict functions (11 callee shapes x 6 call routes x 4 containers x 6 places where the root is bound; tail self calls) must denote the caller's value.",
+ "C16": " 28 lazy-versus-strict twin programs (apply/map binding non-self-evaluating values to lazy formals; argument variables re-bound in the forcing frame) must behave like the same program with strict formals. Dot-path arguments of strict functions (16 callee shapes, five with the path in a lazy position, x 6 call routes x 4 containers x 6 places where the root is bound; tail self calls) must denote the caller's value.",
  "C17": " The inner struct's name extends the outer one's; fields include a pointer to a struct; a struct declared without fields must accept no key of any kind; values include pointers to other structs, the type int64 itself and [nil 1]. A rune field written with characters; arrays computed by map, keys, append, rest, slice, concat and arrays changed in place after their type was first asked for.",
  "C18": " Generic accessors (hget in all spellings, hpair) handed the package value itself must never return a private member's canary. Every value path is also handed as the caller's argument to a function defined inside a package; private members of an enclosing package are named through each nested package that does not define them (read, def, set, infix assignment, call, hash descent).",
  "C19": " Script histories include names that differ only in letter case, judged through ==, !=, and equality of arrays and lists holding the symbols. The name pool includes the empty name (33 operations).",
